@@ -144,12 +144,17 @@ pub open spec fn c05_v2_post(s: Seq<u8>, r: Result<V2Header, V2Error>) -> bool {
 pub open spec fn c17_post(s: Seq<u8>, r: Result<V2Header, V2Error>) -> bool {
     (r matches Err(V2Error::Incomplete(n)) ==> n as int == s.len() && s.len() < 16)
     && (r matches Err(V2Error::Partial(a, b)) ==>
-            v2_fixed_ok(s) && v2_controls_ok(s)
-            && a as int == s.len() - 16 && b as int == v2_declared_len(s) && (a as int) < (b as int))
+            s.len() >= 16 && a as int == s.len() - 16 && b as int == v2_declared_len(s) && (a as int) < (b as int))
     // before the fixed part is complete nothing but `Incomplete` is an incomplete result,
     // afterwards nothing but `Partial`
     && (v2_res_incomplete(r) && s.len() < 16 ==> r matches Err(V2Error::Incomplete(_)))
     && (v2_res_incomplete(r) && s.len() >= 16 ==> r matches Err(V2Error::Partial(_, _)))
+}
+
+/// a `Partial` is only ever reported for a header that nothing but missing bytes separates from acceptance BY THE
+/// GRAMMAR OF C02 (stronger than C17: which control bytes are valid is C02's business)
+pub open spec fn c17_controls_post(s: Seq<u8>, r: Result<V2Header, V2Error>) -> bool {
+    r matches Err(V2Error::Partial(_, _)) ==> v2_fixed_ok(s) && v2_controls_ok(s)
 }
 
 /// [C12] one malformed element in an otherwise complete, well-formed header:
